@@ -181,6 +181,33 @@ def search(rep: C.Report, tier: str, broken):
                     rep.violation(f"{kind}.compactify does not undo decompactify in direction {nm} (max error {err:.3g})",
                                   dict(info, direction=nm, max_error=float(err)),
                                   finding_key=KEY_E if (kind == "grid3" and nm == "z") else f"C17:inverse:{kind}:{nm}")
+    # extreme but admissible separation of scales (tails 10 ... 1e4 wall thicknesses: the smoothed steps at chi = +-r become very sharp).  Finite
+    # differences of the float map are useless there, so the Jacobian is tied to the map the other way round: its integral over an interval of
+    # chi (adaptive quadrature, break points at the steps) is the difference of the map.  With the centre-slope test above (on the reported
+    # Jacobian) the interval around chi = 0 ties the slope of the MAP at the centre as well.  Unchanged code: <= 6e-6 (float noise of the map).
+    from scipy.integrate import quad
+    seps = (1e1, 1e3, 1e4) if tier == "quick" else (1e1, 1e2, 1e3, 3e3, 1e4)
+    for tl in seps:
+        for rr in (0.25, 0.5, 0.75):
+            for ss in (0.05, 0.1, 0.3):
+                for L in ((1.0,) if tier == "quick" else (0.01, 1.0, 100.0)):
+                    par = dict(tailLengthInside=tl * L, tailLengthOutside=2 * tl * L, wallThickness=L, momentumFalloffT=1.0, ratioPointsWall=rr,
+                               smoothing=ss, wallCenter=0.3 * L)
+                    g = Grid3Scales(6, 5, **par)
+                    J = lambda x: float(g.compactificationDerivatives(np.array(x), np.array(0.0), np.array(0.0))[0])   # noqa: E731
+                    Z = lambda x: float(g.decompactify(np.array(x), np.array(0.0), np.array(0.0))[0])                   # noqa: E731
+                    edges = [-0.9, -0.75, -0.6, -0.3, -0.02, 0.02, 0.3, 0.6, 0.75, 0.9]
+                    zmax = max(abs(Z(-0.9)), abs(Z(0.9)))
+                    rep.case(key=("scale-separation", tl, rr, ss, L))
+                    rep.count("extreme scale separation: integral of the Jacobian vs the map")
+                    for a, b in zip(edges[:-1], edges[1:]):
+                        I = quad(J, a, b, points=[x for x in (-rr, rr) if a < x < b] or None, epsabs=0, epsrel=1e-11, limit=400)[0]
+                        d = Z(b) - Z(a)
+                        if not abs(I - d) <= 2e-4 * (abs(d) + 1e-7 * zmax):
+                            rep.violation("grid3: the integral of the reported Jacobian over an interval of chi is not the difference of the position map",
+                                          dict(kind="grid3", params=par, chi_from=a, chi_to=b, integral_of_jacobian=I, map_difference=d),
+                                          finding_key="C17:jacobian-integral")
+                            break
     # the constructor must reject smoothing >= 1 (fixed defect C17-I must not return)
     for s in (1.0, 1.5, 3.0):
         try:
